@@ -24,7 +24,7 @@ from .c07 import dom_digest, default_types_digest, OTHER_T, OTHER_U
 
 ID = "C17"
 RULE = ("domain elements: predicates p,q,r; function f; constant k; actions a1 (uses p,k), a2 (uses q,f,r); problem "
-        "elements: objects o1,o2 (plus u0 - object, first in every file); facts (p o1), (p o2), (q o1 o2), (= (f) 3); goals (p o2), (r); agents 2 (quick) / 3 (thorough: "
+        "elements: objects o1,o2 (plus u0 - object, first in the first agent's file); facts (p o1), (p o2), (q o1 o2), (= (f) 3); goals (p o2), (r); agents 2 (quick) / 3 (thorough: "
         "domain splits only); every assignment of each element to a non-empty subset of agents that keeps each file "
         "self-contained; every permutation of the discovered files; add_dummy_actions on/off. one case = one domain split "
         "(with all orders, both dummy settings, and a rotating problem split). non-trivial = a split in which some "
@@ -115,8 +115,9 @@ def domain_file(where, ag):
 
 
 def problem_file(pw, ag):
-    # u0: an object of the root type, declared first in every agent's file (before the typed objects)
-    objs = "u0 - object " + " ".join(f"{o} - {t}" for o, t in OBJ.items() if ag in pw[o])
+    # u0: an object of the root type, declared first in the first agent's file (before the typed objects); the other
+    # agents may own no object at all
+    objs = ("u0 - object " if ag == 0 else "") + " ".join(f"{o} - {t}" for o, t in OBJ.items() if ag in pw[o])
     init = " ".join(f for f in FACTS if ag in pw[f])
     goals = " ".join(g for g in GOALS if ag in pw[g])
     return f"(define (problem madp) (:domain mad)\n(:objects {objs})\n(:init {init})\n(:goal (and {goals})))\n"
@@ -145,9 +146,44 @@ class GlobOrder:
         pathlib.Path.glob = self.orig
 
 
+_other_team_done = False
+
+
+def combine_another_team_first():
+    """Once per process, before the first case: another team, in another directory, whose agent files have the SAME
+    file names (and the same domain / problem names) but other content, is combined and exported.  Nothing kept from
+    it may show up in a later combination."""
+    global _other_team_done
+    if _other_team_done:
+        return
+    _other_team_done = True
+    from pddl_plus_parser.multi_agent import MultiAgentDomainsConverter, MultiAgentProblemsConverter
+    d = pathlib.Path(scratch_dir()) / f"c17_other_{os.getpid()}"
+    shutil.rmtree(d, ignore_errors=True)
+    d.mkdir()
+    try:
+        for ag, (pred, act) in enumerate((("(zq ?a - t2)", "zb"), ("(zr ?a - t1 ?b - t1)", "zc"))):
+            (d / f"domain-ag{ag}.pddl").write_text(
+                f"(define (domain mad)\n(:requirements :typing)\n(:types t2 - object t1 - t2 t9 - t1)\n(:constants k - t9)\n"
+                f"(:predicates {pred} (p ?a - t9))\n(:action {act} :parameters (?x - t9) :precondition (and (p ?x)) "
+                f":effect (and (not (p ?x)))))\n")
+            (d / f"prob-ag{ag}.pddl").write_text(
+                f"(define (problem madp) (:domain mad)\n(:objects o1 o{ag + 7} - t9)\n(:init (p o1) (p o{ag + 7}))\n"
+                f"(:goal (and (p k))))\n")
+        out = d / "out"
+        out.mkdir()
+        path = MultiAgentDomainsConverter(d).export_combined_domain(add_dummy_actions=False, output_folder=out)
+        MultiAgentDomainsConverter(d).locate_domains(add_dummy_actions=True)
+        MultiAgentProblemsConverter(d, "prob").combine_problems(path)
+    except Exception:  # noqa: the other team is only there to be remembered wrongly
+        pass
+    shutil.rmtree(d, ignore_errors=True)
+
+
 def check_case(case):
     from pddl_plus_parser.multi_agent import MultiAgentDomainsConverter, MultiAgentProblemsConverter
     from pddl_plus_parser.exporters import DomainExporter, ProblemExporter
+    combine_another_team_first()
     r = CaseResult()
     n = case["agents"]
     where = {k: tuple(v) for k, v in case["where"].items()}
